@@ -36,23 +36,37 @@ RULE = ('one case = one Segmentation built from a generated (source kind and geo
         'layout, dtype, memory layout of the array, segment numbers, max fractional value, fractional type, omit_empty_frames, '
         'empty-plane pattern, transfer syntax, workers) and read back by source instance / source frame in the supplied order '
         '(+ a sub-permutation with a repeated source) on the access paths memory / eager / lazy / real files / cached '
-        'pixel_array / from_dataset / pickle / deepcopy; plus an exhaustive 1 x n frame-size grid and tiny arrays through the '
-        'two static helpers; non-trivial = accepted mask with at least one non-empty and (when planes > 1) one differing '
+        'pixel_array / from_dataset / pickle / deepcopy / re-encapsulated with an empty basic or an extended offset table, and through '
+        'the other entry points (get_stored_frame, pixel_array, by dimension index values, get_volume); stream `tiled`: masks of '
+        'tiled slide images (total pixel matrix or one array per source frame; own tile size; TILED_FULL / TILED_SPARSE; sources '
+        'listing their tiles in any order or lacking some; pyramids with one mask per level) read back as total pixel matrix, '
+        'region, by source frame and frame by frame; stream `many`: 255..300 described segments of every type; plus an '
+        'exhaustive 1 x n frame-size grid with long carry chains and tiny arrays through the two static helpers; '
+        'non-trivial = accepted mask with at least one non-empty and (when planes > 1) one differing '
         'plane, distinct by (type, layout, dtype, rows*cols mod 8, rows*cols < 8, planes, segments, omit, empties, syntax, '
         'source kind, path)')
 ASSUMPTIONS = [
     'a mask is its logical content: the model sees planes in row-major order whatever the memory layout of the numpy array '
     '(the code flattens with flatten(); pinned by T20 and exercised with non-contiguous / Fortran / strided / read-only arrays)',
-    'fractional inputs are dyadic rationals k/2^j (j <= 10) so that x * max_fractional_value is exact in float32/float64; '
-    'rounding of non-dyadic products inside numpy is not modelled',
+    'fractional inputs are dyadic rationals k/2^j, random float32/float64 values and values within 2 ulps of a tie; the model is '
+    'fed the float product x * max_fractional_value taken by NumPy (as an exact rational), the oracle accepts either neighbour '
+    'only within float error of a tie; NaN is excluded',
     'plane order (DimensionIndexSequence.get_index_values) is a parameter of the model: theorems hold for every order; '
-    'the geometry that produces it belongs to C03/C11',
-    'codecs (RLE, JPEG-LS) are parameters with the law decode(encode x) = x, exercised here on every encapsulated case',
+    'the geometry that produces it belongs to C03/C11 (tiled masks: the raster order of compute_tile_positions_per_frame, '
+    'bridged to C04\'s regenerated definitions)',
+    'codecs (RLE, JPEG-LS) are parameters with the law decode(encode x) = x, exercised here on every encapsulated case; '
+    'JPEG 2000 Lossless cannot be exercised (no openjpeg in this environment)',
     'the 2-D -> 3-D lift (pixel_array[np.newaxis]) and numpy dtype casts of in-range values are taken as given',
+    'tiled masks: the model cuts the matrix first and casts the tiles, the code casts the matrix and cuts then (the checks are per '
+    'pixel, padding adds background only); both are run on every `tiled` case (L0/L1)',
+    'sources of the tiled stream have one optical path and one focal plane; pyramids are built from one source image with one mask '
+    'per level (down-sampled levels are resampled by Pillow: not an exact round trip, left to C03)',
 ]
 MODELLED_NOT_VERIFIED = ['numpy casting / unique / setdiff1d / around', 'pydicom Dataset, encapsulate, file writer/reader, pack_bits',
                          'RLE / JPEG-LS codecs', 'SQLite join of the frame LUT (modelled as a list comprehension)',
-                         'concurrent.futures pool (only order-independent collection is proved)']
+                         'concurrent.futures pool (only order-independent collection is proved)',
+                         'offset tables of encapsulated PixelData (a frame is a fragment in the model; tables: C05)',
+                         'get_volume / get_total_pixel_matrix assembly (oracle here; theorems: C03 / C04)']
 
 DTYPES = ['bool', 'uint8', 'uint16', 'float32', 'float64']
 NATIVE = ('Explicit VR Little Endian', 'Implicit VR Little Endian')
@@ -807,7 +821,10 @@ def run_case(ctx, c, reqs, pending, paths=('memory', 'eager', 'lazy'), light=Fal
         ctx.fail(desc, f'save_as failed: {type(e).__name__}: {e}'[:300], site='save_as')
     objs = {}
     tmpdir = None
-    if blob is not None and c['idx'] % 10 == 3 and 'lazy' in paths:
+    # which optional paths a case takes is drawn per case (never from idx modulo something: the type x dtype x layout
+    # stratification has period 40, a path tied to idx % 2 / 4 / 5 / 10 would only ever see some types)
+    coin = np.random.default_rng([int(c.get('read_perm_seed', 0)), 4242]).random(8)
+    if blob is not None and coin[0] < 0.1 and 'lazy' in paths:
         # every tenth case also goes through a real file on disk (save_as(path) / segread(path))
         import tempfile
         tmpdir = tempfile.TemporaryDirectory(prefix='hdv_c01_')
@@ -817,11 +834,11 @@ def run_case(ctx, c, reqs, pending, paths=('memory', 'eager', 'lazy'), light=Fal
             paths = tuple(paths) + ('eager-file', 'lazy-file')
         except Exception as e:  # noqa: BLE001
             ctx.fail(desc, f'save_as(path) failed: {type(e).__name__}: {e}'[:300], site='save_as')
-    if 'lazy' in paths and c['idx'] % 5 == 1:
+    if 'lazy' in paths and coin[1] < 0.2:
         paths = tuple(paths) + ('from_dataset', 'pickle', 'deepcopy')
-    if 'lazy' in paths and c['idx'] % 4 == 2:
+    if 'lazy' in paths and coin[2] < 0.25:
         paths = tuple(paths) + ('cached',)
-    if 'lazy' in paths and c['ts'] not in NATIVE and c['idx'] % 2 == 0:
+    if 'lazy' in paths and c['ts'] not in NATIVE and coin[3] < 0.5:
         # the same encoded frames behind the other offset-table forms of an encapsulated PixelData element: an empty basic
         # offset table, and an extended offset table (the constructor writes a filled basic offset table)
         paths = tuple(paths) + ('empty-bot', 'extended-ot')
@@ -834,7 +851,7 @@ def run_case(ctx, c, reqs, pending, paths=('memory', 'eager', 'lazy'), light=Fal
             elif blob is not None and path == 'lazy':
                 objs[path] = hd.seg.segread(io.BytesIO(blob), lazy_frame_retrieval=True)
             elif blob is not None and path == 'from_dataset':
-                objs[path] = hd.seg.Segmentation.from_dataset(pydicom.dcmread(io.BytesIO(blob)), copy=bool(c['idx'] % 2))
+                objs[path] = hd.seg.Segmentation.from_dataset(pydicom.dcmread(io.BytesIO(blob)), copy=bool(coin[4] < 0.5))
             elif path == 'pickle':
                 import pickle
                 objs[path] = pickle.loads(pickle.dumps(seg))
@@ -856,7 +873,9 @@ def run_case(ctx, c, reqs, pending, paths=('memory', 'eager', 'lazy'), light=Fal
                     d3.PixelData, d3.ExtendedOffsetTable, d3.ExtendedOffsetTableLengths = encapsulate_extended(enc_frames)
                 b3 = io.BytesIO()
                 d3.save_as(b3)
-                objs[path] = hd.seg.segread(io.BytesIO(b3.getvalue()), lazy_frame_retrieval=bool((c['idx'] // 2 + len(path)) % 2))
+                lazy3 = bool(np.random.default_rng([c['read_perm_seed'], len(path)]).integers(0, 2))
+                ctx.hist('offset_table_path', f'{path}/{"lazy" if lazy3 else "eager"}')
+                objs[path] = hd.seg.segread(io.BytesIO(b3.getvalue()), lazy_frame_retrieval=lazy3)
             elif path == 'eager-file':
                 objs[path] = hd.seg.segread(fpath)
             elif path == 'lazy-file':
@@ -922,7 +941,7 @@ def run_case(ctx, c, reqs, pending, paths=('memory', 'eager', 'lazy'), light=Fal
                     ctx.fail(case, f'rescaled read refused: {type(e).__name__}: {e}'[:300], site=f'read-rescaled/{path}')
         # several calls on ONE object: the same read again, a read after a refused call, after a read with other options;
         # none of them may change the object or the answer
-        if path in ('memory', 'eager', 'lazy') and (path == 'memory' or c['idx'] % 2 == 0):
+        if path in ('memory', 'eager', 'lazy') and (path == 'memory' or coin[5] < 0.5):
             case = dict(desc, path=path, request='sequence')
             ctx.case(path=path + '/sequence', **hist)
             try:
@@ -1435,7 +1454,7 @@ def run_tiled(ctx, c, reqs, pending):
         ctx.fail(desc, f'save_as failed: {type(e).__name__}: {e}'[:300], site='save_as')
     objs = {'memory': seg}
     if blob is not None:
-        for path in ('eager', 'lazy') if c['idx'] % 2 == 0 else ('lazy',):
+        for path in ('eager', 'lazy') if np.random.default_rng([c['read_perm_seed'], 4243]).random() < 0.5 else ('lazy',):
             try:
                 objs[path] = hd.seg.segread(io.BytesIO(blob), lazy_frame_retrieval=(path == 'lazy'))
             except Exception as e:  # noqa: BLE001
